@@ -57,10 +57,12 @@ def generate(tier, seed):
     cases = []
     for i in range(n):
         r = rng.random()
-        fam = "poly1" if r < 0.55 else ("poly2" if r < 0.9 else "bag1")
+        fam = "poly1" if r < 0.45 else ("poly2" if r < 0.9 else "bag1")
         spec = getattr(P, "random_" + fam)(rng, s=1.0)
         if tier == "quick":
-            factors = [float(rng.choice([1e-2, 1e2])), float(10 ** rng.uniform(-2, 2))]
+            # both extremes every time: absolute numbers hidden in the code bite in one
+            # direction only (small units: lengths > 1, gradients < 1; large units: T_n >> 1)
+            factors = [1e-2, 1e2]
             settings = ["default"] if i % 3 else ["tight"]
         else:
             factors = [1e-2, 0.1, 10.0, 1e2, float(10 ** rng.uniform(-2, 2))]
@@ -94,6 +96,7 @@ def compare(ref, oth, s, cfg, viol, tag, pot1, pot_s):
     # the partner's location over the reference's, relative to the free-energy difference
     # between the phases; the location itself only has to be right to 1e-2 (a wrong power
     # of s gives O(1))
+    units_mech = False
     dV = abs(float(pot1.V_code(ref["phase_high"], ref["Tn"])[0])
              - float(pot1.V_code(ref["phase_low"], ref["Tn"])[0])) + 1e-300
     for ph in ("phase_high", "phase_low"):
@@ -116,7 +119,11 @@ def compare(ref, oth, s, cfg, viol, tag, pot1, pot_s):
                              f"validatePhaseInput is off by {d:.2e} of the field scale (free-"
                              f"energy excess {ex:.2e} of DeltaV) although |grad V| there is "
                              f"{g:.1e} < scipy's absolute gtol", "data": {"factor": s}})
-                return obs, True
+                # keep comparing the later stages: tracePhase refines its own starting
+                # point, so a known finding at this stage must not hide a divergence
+                # further down the pipeline
+                units_mech = True
+                continue
             if d > 1e-2:
                 fail("phases", ph, d, 1e-2)
             else:
@@ -217,7 +224,7 @@ def compare(ref, oth, s, cfg, viol, tag, pot1, pot_s):
             # compared on two grids whose scales follow the (slightly different) widths
             if d > 1e-1:
                 fail("solve", "fieldProfiles/s", d, 1e-1)
-    return obs, False
+    return obs, units_mech
 
 
 def run_case(case):
@@ -295,6 +302,22 @@ def run_case(case):
             continue
         nv = len(viol)
         o, units_mech = compare(ref, oth, float(s), cfg, viol, tag, pot1, pot_s)
+        outl = [k for k in ("H", "L")
+                if sp_o.get(k, {}).get("start_row_jump_over_neighbour_spread", 0) > 5
+                and sp_o[k].get("start_row_jump_over_scale", 0) >
+                10 * sp_r.get(k, {}).get("start_row_jump_over_scale", 0)]
+        if outl and not dup and any(x["mech"].startswith(("not-covariant:eos",
+                                                          "not-covariant:hydro",
+                                                          "not-covariant:lte"))
+                                    for x in viol[nv:]):
+            # the table row at T_n (located by scipy's minimiser with its own numerical
+            # gradient: absolute step 1.5e-8 for a field near zero, whatever the units) sits
+            # off the smooth curve through its ODE-located neighbours: a kink of p(T) exactly
+            # at T_n
+            for x in viol[nv:]:
+                if x["mech"].startswith("not-covariant:") and not x["mech"].endswith("gradient-tolerance"):
+                    x["msg"] += f" | start row vs neighbours {sp_o}"
+                    x["mech"] = "not-covariant:start-row-outlier-minimiser-finite-difference-step"
         if dup and any(x["mech"].startswith(("not-covariant:eos", "not-covariant:hydro",
                                              "not-covariant:lte")) for x in viol[nv:]):
             # the partner's table has two abscissae ~1e-6 (absolute, in its own units) apart
@@ -309,7 +332,6 @@ def run_case(case):
         reclassify_solve(viol, nv, o, {**spec, "s": 1.0}, cfg, mon)
         if units_mech:
             classes.append("partner-minimiser-not-converged")
-            continue
         mon["pairs_compared"] += 1
         rows.append({"factor": s, **o})
         nontriv = (case["solve"] and ref.get("vw") is not None) or (0 < ref["vLTE"] < 1)
